@@ -785,6 +785,21 @@ impl<E: Effect> Executor<E> {
         Ok(())
     }
 
+    /// Notify a process that a process it awaits has failed. The error is recorded against the
+    /// awaited process and surfaces when (and only when) a select reaches that source in written
+    /// order: a higher-priority source that is ready still wins, and a process whose select has
+    /// already completed with another source is left alone.
+    pub fn notify_failure(&mut self, awaiter: ProcessId, awaited: ProcessId, error: Error) {
+        if let Some(process) = self.get_process_mut(awaiter) {
+            process.failed_awaits.insert(awaited, error);
+        }
+
+        // Re-queue awaiter to retry its Select instruction
+        if self.selecting.remove(&awaiter) {
+            self.queue.push_back(awaiter);
+        }
+    }
+
     /// Notify a process that an effect operation completed
     pub fn notify_effect_completion(
         &mut self,
@@ -1272,11 +1287,9 @@ impl<E: Effect> Executor<E> {
                             .ok(); // Ignore errors since this is internal notification
                     }
                     Some(Err(error)) => {
-                        // Error - propagate to awaiter by setting their result
-                        if let Some(awaiter_process) = self.get_process_mut(awaiter) {
-                            awaiter_process.result = Some(Err(error.clone()));
-                            awaiter_process.frames.clear();
-                        }
+                        // Error - record it for the awaiter; its select propagates it when it
+                        // reaches this process source
+                        self.notify_failure(awaiter, current_pid, error.clone());
                     }
                     None => {
                         // No result yet (shouldn't happen at this point)
@@ -2364,6 +2377,11 @@ impl<E: Effect> Executor<E> {
         let process = self
             .get_process(pid)
             .ok_or(Error::InvalidArgument("Process not found".to_string()))?;
+
+        // A failed awaited process propagates its error to the awaiter
+        if let Some(error) = process.failed_awaits.get(&target_pid) {
+            return Err(error.clone());
+        }
 
         // Check if result is available (we've already awaited upfront)
         if let Some(result_opt) = process.awaiting.get(&target_pid)
